@@ -708,7 +708,7 @@ func init() {
 				us = append(us, engine.Unit{Name: "arrays-" + n, Run: exhaustiveArrays(n)})
 			}
 			us = append(us, engine.Unit{Name: "every-ranker", Run: everyRanker}, engine.Unit{Name: "ladder", Run: ladder},
-				engine.Unit{Name: "shuffle", Run: shuffle}, engine.Unit{Name: "collections", Run: collections}, engine.Unit{Name: "sorter-reuse", Run: reuse}, engine.Unit{Name: "collection-histories", Run: histories}, engine.Unit{Name: "catalog-keys-that-rank-equal", Run: tieKeyUnit}, engine.Unit{Name: "long-arrays-under-the-scheduler", Run: largeUnderScheduler})
+				engine.Unit{Name: "shuffle", Run: shuffle}, engine.Unit{Name: "collections", Run: collections}, engine.Unit{Name: "sorter-reuse", Run: reuse}, engine.Unit{Name: "collection-histories", Run: histories}, engine.Unit{Name: "catalog-keys-that-rank-equal", Run: tieKeyUnit}, engine.Unit{Name: "long-arrays-under-the-scheduler", Run: largeUnderScheduler}, engine.Unit{Name: "element-kinds", Run: elementKinds})
 			return us
 		},
 	})
